@@ -40,6 +40,10 @@ type Obligation struct {
 	Time    float64
 	Model   string
 	Output  string
+	Replay  *ReplayInfo
+	FirstIter []string
+	ResultVals []Val // symbolic results at the exit a post obligation belongs to
+	ClauseExpr Expr
 	Splits  []string // reach conditions of the paths merged most recently before the obligation (their disjunction is implied by the obligation's reach): case-split fallback
 	Inputs  map[string]string // names of input consts -> description (for replay)
 }
@@ -109,6 +113,7 @@ type State struct {
 	epoch  string
 	defers []deferred
 	splits []Term // reach conditions merged at the last join on the way here
+	firstIter []string // replay hint: equalities making every enclosing loop's state its entry state
 }
 
 func (s *State) clone() *State {
@@ -121,6 +126,7 @@ func (s *State) clone() *State {
 	}
 	n.defers = append([]deferred(nil), s.defers...)
 	n.splits = s.splits
+	n.firstIter = s.firstIter
 	return n
 }
 
@@ -248,6 +254,7 @@ func (fx *FX) oblige(st *State, kind, label, clause string, goal Term, pos token
 			ob.Splits = append(ob.Splits, sp.S)
 		}
 	}
+	ob.FirstIter = st.firstIter
 	fx.items = append(fx.items, item{kind: "oblig", ob: ob, reach: st.reach, goal: goal})
 	fx.obs = append(fx.obs, ob)
 }
@@ -409,6 +416,7 @@ func (fx *FX) merge(label string, ins []*State) *State {
 	out := &State{cells: map[*ssa.Alloc]Term{}, comps: map[string]Term{}}
 	out.reach = fx.define("reach_"+label, Or(rs...))
 	out.splits = rs
+	out.firstIter = ins[0].firstIter
 	out.epoch = ins[0].epoch
 	sameEpoch := true
 	for _, s := range ins {
